@@ -208,18 +208,19 @@ func AcceptBidToBuy1SatOrdinal(ctx context.Context, vba *ValidateBidArgs, aba *A
 	tx := aba.PSTx.Clone()
 
 	tx.Outputs[1].LockingScript = aba.SellerReceiveScript
-	// check if fees paid are still enough with new
-	// locking script
-	enough, err := tx.IsFeePaidEnough(vba.ExpectedFQ)
-	if err != nil || !enough {
-		return nil, bt.ErrInsufficientFees
-	}
 
 	tx.Inputs[1].PreviousTxScript = vba.OrdinalUTXO.LockingScript
 	tx.Inputs[1].PreviousTxSatoshis = vba.OrdinalUTXO.Satoshis
-	err = tx.FillInput(ctx, aba.OrdinalUnlocker, bt.UnlockerParams{InputIdx: 1})
+	err := tx.FillInput(ctx, aba.OrdinalUnlocker, bt.UnlockerParams{InputIdx: 1})
 	if err != nil {
 		return nil, err
+	}
+
+	// check that the fees paid are still enough for the completed transaction:
+	// with the seller's locking script and the ordinal input signed
+	enough, err := tx.IsFeePaidEnough(vba.ExpectedFQ)
+	if err != nil || !enough {
+		return nil, bt.ErrInsufficientFees
 	}
 
 	return tx, nil
